@@ -235,7 +235,7 @@ func runA(k caseA, dir string) {
 
 // ---------- part B: schedules ----------
 
-func scenarioB(name string, cf cfg, lens [2][]int) sched.Scenario {
+func scenarioB(name string, cf cfg, lens [2][]int, back ...uint64) sched.Scenario {
 	return sched.Scenario{Name: name, MaxSteps: 400000, Body: func(dir string) string {
 		st, err := store.Open(dir, opts(cf))
 		if err != nil {
@@ -265,11 +265,16 @@ func scenarioB(name string, cf cfg, lens [2][]int) sched.Scenario {
 				res[w] = fmt.Sprintf("tx%d", h.ID)
 			})
 		}
-		var cut uint64
+		var cut, lastAtTrunc uint64 // lastAtTrunc: newest committed tx when the truncation started (later ids were in flight at best)
 		var terr error
 		vsched.Spawn(func() {
-			// the truncator picks the newest committed transaction as cut (as a retention policy would)
+			// the truncator picks the newest committed transaction as cut (as a retention policy would), or the one
+			// `back` transactions before it
 			cut = st.LastCommittedTxID()
+			lastAtTrunc = cut
+			if len(back) > 0 && cut > back[0] {
+				cut -= back[0]
+			}
 			terr = st.TruncateUptoTx(cut)
 		})
 		vsched.Join()
@@ -296,7 +301,7 @@ func scenarioB(name string, cf cfg, lens [2][]int) sched.Scenario {
 					}
 					return -1
 				}
-				if cutOff, off := firstOff(cut), firstOff(id); id > cut && cutOff >= 0 && off >= 0 && off < cutOff {
+				if cutOff, off := firstOff(cut), firstOff(id); id > lastAtTrunc && cutOff >= 0 && off >= 0 && off < cutOff {
 					cause = "values-appended-before-the-cut-tx-by-a-later-committer"
 				}
 				sched.Report("value-lost-at-or-after-cut cause="+cause, fmt.Sprintf("TruncateUptoTx(%d) raced with committers: tx %d (>= cut) is unreadable afterwards: %v (results %v)", cut, id, err, res))
@@ -339,13 +344,14 @@ func main() {
 		}
 	}
 	// (…-e0 / …-e1: one committer's transaction starts with an empty value, which carries no value-log offset)
-	bNames := []string{"race-fs32-io1", "race-fs32-io2", "race-fs64-io1", "race-fs32-io1-e0", "race-fs32-io1-e1", "race-fs32-io2-e0"}
+	bNames := []string{"race-fs32-io1", "race-fs32-io2", "race-fs64-io1", "race-fs32-io1-e0", "race-fs32-io1-e1", "race-fs32-io2-e0", "race-fs32-io1-back1", "race-fs32-io2-back1"}
 	scs := []sched.Scenario{scenarioB(bNames[0], cfg{32, 1}, [2][]int{{20}, {30}}), scenarioB(bNames[1], cfg{32, 2}, [2][]int{{20}, {30}}), scenarioB(bNames[2], cfg{64, 1}, [2][]int{{30}, {30}}),
-		scenarioB(bNames[3], cfg{32, 1}, [2][]int{{0, 30}, {30}}), scenarioB(bNames[4], cfg{32, 1}, [2][]int{{30}, {0, 30}}), scenarioB(bNames[5], cfg{32, 2}, [2][]int{{0, 30}, {30}})}
+		scenarioB(bNames[3], cfg{32, 1}, [2][]int{{0, 30}, {30}}), scenarioB(bNames[4], cfg{32, 1}, [2][]int{{30}, {0, 30}}), scenarioB(bNames[5], cfg{32, 2}, [2][]int{{0, 30}, {30}}),
+		scenarioB(bNames[6], cfg{32, 1}, [2][]int{{20}, {30}}, 1), scenarioB(bNames[7], cfg{32, 2}, [2][]int{{30}, {30}}, 1)}
 	// ---- part A in shard processes (the scheduler is process-global), merged by the parent
 	if !c.IsChild() && c.ReplayPath == "" {
 		var jobs []sched.Job
-		bound, budget := 1, 12*time.Second
+		bound, budget := 1, 9*time.Second
 		if c.Thorough() {
 			bound, budget = 2, 3*time.Minute
 		}
